@@ -564,6 +564,64 @@ pub fn run(rep: &mut Report, thorough: bool) {
         );
         rep.stage("sibling-destinations", "5 pairs of destination addresses (other address, same /64, same /24) x ordered pairs of 4 protocols: two connections from one client endpoint, the second one answered by the responder of ITS leading bytes", scen2.len() as u64, t0);
     }
+    // the decision does not depend on the VALUE of the flow's cookie: keys under which the flow
+    // 40000 -> 80 has the cookie 0xffffffff (valid acknowledgement 0), 0, 0xfffffffe, 1 (found
+    // offline with the harness's own SipHash, confirmed against the real SYN-ACK here)
+    {
+        let t0 = std::time::Instant::now();
+        let edge: [([u64; 2], u32); 4] = [([0xdcdce3a2, 0x5eed], 0xffff_ffff), ([0x45a0fb78, 0x5eed], 0), ([0x45a99a18, 0x5eed], 0xffff_fffe), ([0x32b774b09, 0x5eed], 1)];
+        let firsts: Vec<&Payload> = pls.iter().filter(|p| ["http-get", "ssh-2", "smb2-negotiate", "rpc-tcp-getport", "ghost"].contains(&p.name)).collect();
+        let mut n = 0u64;
+        let mut confirmed = 0u64;
+        for (key, want_cookie) in edge {
+            let ecfg = Cfg::base().with_key(key);
+            let f = flow(false, 40000, 80);
+            let mut d = match Driver::spawn(&ecfg) {
+                Ok(d) => d,
+                Err(e) => {
+                    rep.sink.machinery_errors.push(e);
+                    continue;
+                }
+            };
+            let syn = d.exec(&[Cmd::Reset, Cmd::Frame(f.tcp(5, 0, crate::wire::F_SYN, b""))]).map(|v| v[1].clone()).unwrap_or_default();
+            if syn.reply.as_deref().and_then(synack_seq) != Some(want_cookie) {
+                continue;
+            }
+            confirmed += 1;
+            for p in &firsts {
+                n += 1;
+                let cmds = vec![Cmd::Reset, Cmd::Frame(f.tcp(1000, want_cookie.wrapping_add(1), crate::wire::F_PSH | crate::wire::F_ACK, &p.bytes))];
+                let o = d.exec(&cmds).map(|v| v[1].clone()).unwrap_or_default();
+                let app = o.reply.as_deref().and_then(crate::mask::app_payload).map(|(_, p)| p).unwrap_or_default();
+                let got = if app.is_empty() { "nobody" } else { responder_of(&app) };
+                let want = match crate::sig::dispatch(&sigs, &p.bytes, false) {
+                    crate::sig::Dispatch::Matched(pr, _, _) => match pr {
+                        crate::sig::Proto::Http => "http",
+                        crate::sig::Proto::Ssh => "ssh",
+                        crate::sig::Proto::Ghost => "ghost",
+                        crate::sig::Proto::Stun => "stun",
+                        crate::sig::Proto::RpcTcp => "rpc-tcp",
+                        crate::sig::Proto::RpcUdp => "rpc-udp",
+                        crate::sig::Proto::Smb1 | crate::sig::Proto::Smb2 => "smb",
+                    },
+                    _ => continue,
+                };
+                if got != want {
+                    rep.sink.violation(Violation {
+                        prop: "C10".into(),
+                        key: format!("decision-depends-on-cookie-value:{}-instead-of:{}", got, want),
+                        what: format!("'{}' on a flow whose SYN cookie is {:#010x} is answered by {} (its leading bytes select {})", p.name, want_cookie, got, want),
+                        cfg: ecfg.clone(),
+                        cmds,
+                        idx: n,
+                        stage: "edge-cookies".into(),
+                    });
+                }
+            }
+        }
+        rep.sink.count("edge_cookie_keys_confirmed", confirmed);
+        rep.stage("edge-cookies", "4 keys under which the flow 40000 -> 80 has the SYN cookie 0xffffffff / 0 / 0xfffffffe / 1 (confirmed against the real SYN-ACK) x 5 protocols' first requests: answered by the responder of the leading bytes", n, t0);
+    }
     // the decision reads the payload bytes and nothing else of the segment: flag bits next to
     // PSH|ACK x urgent pointer x window x TCP options, two and three departures at once
     {
